@@ -460,7 +460,8 @@ func init() {
 	wpkh := func(bp *blockPlan) []byte { return bp.w.script(KP2WPKH, 0) }
 	gated("p2wpkh-empty-witness-after-segwit", ClsConnect, segOn, wpkh, 1, 0xffffffff, noLock)
 	gated("p2wpkh-anyone-can-spend-before-segwit", ClsValid, segOff, wpkh, 1, 0xffffffff, noLock)
-	tapOn := func(bp *blockPlan) bool { return bp.w.active(bp.parent, chaincfg.DeploymentTaproot) }
+	// (witness programs are only interpreted at all once segwit is active)
+	tapOn := func(bp *blockPlan) bool { return bp.segwit && bp.w.active(bp.parent, chaincfg.DeploymentTaproot) }
 	tapOff := func(bp *blockPlan) bool { return !tapOn(bp) }
 	tap32 := func(bp *blockPlan) []byte {
 		sc := []byte{txscript.OP_1, 32}
